@@ -273,6 +273,11 @@ func runScenario(orig *scenario) *result {
 	open()
 	idle := func() bool { return conn.consumed() && (len(b.queue) == 0 || conn.consumedClosed()) }
 	for _, st := range sc.steps {
+		if sc.react != "" || sc.expectDrained {
+			// a step counts as activity: the waits below measure silence from here, not from the last logged event (after a
+			// pause in which the dequeuer waited for a slot the next packet would otherwise not be waited for at all)
+			l.touch()
+		}
 		switch st.kind {
 		case "in":
 			conn.feed(st.pkt)
@@ -320,6 +325,7 @@ func runScenario(orig *scenario) *result {
 		case "drain":
 			// the reactive peer keeps acknowledging until nothing is left to acknowledge
 			for i := 0; i < 400; i++ {
+				l.touch() // what the peer has just fed counts as activity: wait for the broker to act on it
 				l.settle(idle, settleQuiet, settleBlocked, settleMax)
 				if !reactOnce() {
 					break
@@ -355,7 +361,7 @@ func runScenario(orig *scenario) *result {
 				pend, rels := unanswered()
 				return conn.consumed() && !conn.consumedClosed() && len(pend) == 0 && len(rels) == 0
 			}
-			if l.settle(func() bool { return false }, time.Hour, 3*settleBlocked, settleMax) && still() {
+			if l.settle(func() bool { return false }, 4*time.Millisecond, 3*settleBlocked, settleMax) && still() {
 				l.addIfQuiet(still, "Quiescent", 2*settleBlocked)
 			}
 		}
